@@ -440,7 +440,8 @@ impl Prop for C18 {
         k.declared = names.clone();
         let mut expected: Vec<(String, &Ty)> = vec![("A".to_string(), &c.ty)];
         for (n, t) in &c.others {
-            expected.push((n.clone(), t));
+            // TypeScript names keep the ASN.1 spelling with hyphens replaced by underscores
+            expected.push((n.replace('-', "_"), t));
         }
         let helper = Ty::Seq(Body::of(vec![Comp { name: "x".into(), ty: Ty::Bool, opt: Opt::Req }]));
         let uses_ref = c.ty.uses_ref();
